@@ -182,6 +182,9 @@ func (o *Obligation) queryWith(withModel bool, keep map[int]bool) string {
 		if o.Cover && vc.obAsserts[k] {
 			continue // reachability is judged under assumptions only, not under obligations that may fail
 		}
+		if vc.foreignOb[k] {
+			continue
+		}
 		sb.WriteString("(assert " + a + ")\n")
 	}
 	if o.Cover {
